@@ -665,9 +665,12 @@ fn run_case(isa: &dyn Isa, g: Gen, r: &mut Rng, toy: bool) -> Case {
     for (n, _) in &regs { it.id(n); }
     let mut roots = vec![fa];
     for (h, t, _) in &manual { roots.push(*h); roots.push(*t); }
+    // an isolated single-unit lift that contradicts the harness's decoder (wrong successor addresses) is a
+    // failure of the block translator: the case is emitted without items, which the oracle rejects
+    let mut descr = descr;
     let items = match reference_items(isa, &prog, &roots) {
         Ok(i) => i,
-        Err(e) => panic!("harness: {} in {}", e, descr),
+        Err(e) => { tags.push("ref:isolated-lift-disagrees".into()); descr = format!("{} !! {}", descr, e); vec![] }
     };
 
     // classification from the reference side
@@ -698,7 +701,7 @@ fn run_case(isa: &dyn Isa, g: Gen, r: &mut Rng, toy: bool) -> Case {
     // MIPS: a target that is the delay slot of a reachable branch (the slot's IL is then shared between the
     // branch unit and the run that starts at the slot)
     if isa.name() == "mips" && items.iter().any(|i| i.len == 8 && targets.contains(&(i.addr + 4))) {
-        tags.push("kf:mips-target-in-delay-slot".into());
+        tags.push("has:target-in-delay-slot".into());
     }
     let holes = items.iter().filter(|i| i.len == 0).count();
     if holes > 0 { tags.push("has:unmapped-target".into()); }
